@@ -41,6 +41,32 @@ def records_hook_tuple(model, f, node, g, seen=None):
     return False
 
 
+def hooked_var(fac, inner):
+    """name of the local of the trace wrapper that receives the scan helper's "a hook answered" flag"""
+    helpers = [h for h in fac.nested.values() if h is not inner]
+    if len(helpers) != 1:
+        return None
+    hs = helpers[0]
+    rets = [n for n in walk_shallow(hs.node) if isinstance(n, ast.Return) and isinstance(n.value, ast.Tuple)]
+    if len(rets) != 1:
+        return None
+    names = [e.id if isinstance(e, ast.Name) else None for e in rets[0].value.elts]
+    flag = None
+    for n in walk_shallow(hs.node):
+        if isinstance(n, ast.If) and '.hook' in norm(n.test):
+            for st in n.body:
+                if isinstance(st, ast.Assign) and isinstance(st.targets[0], ast.Name) and isinstance(st.value, ast.Constant) and st.value.value is True:
+                    flag = st.targets[0].id
+    if flag is None or flag not in names:
+        return None
+    k = names.index(flag)
+    for n in walk_shallow(inner.node):
+        if isinstance(n, ast.Assign) and isinstance(n.targets[0], ast.Tuple) and isinstance(n.value, ast.Call) and isinstance(n.value.func, ast.Name) and n.value.func.id == hs.name \
+                and len(n.targets[0].elts) == len(names) and isinstance(n.targets[0].elts[k], ast.Name):
+            return n.targets[0].elts[k].id
+    return None
+
+
 def check(run, model, tier):
     run.explanation = ('Path-count and guard analysis of the two trace wrappers, and an outcome-completeness rule over the dispatch outcome switch and '
                        'over every package handler that is not spy-wrapped: the trace wrapper can only tell "transition" from "handled"/"ignored" '
@@ -81,7 +107,9 @@ def check(run, model, tier):
             for n, c in apps:
                 tests = [t for t in g.nodes if t.kind == 'test' and guarded_by_edge(g, n, t, 'true')]
                 txt = ' && '.join(norm(t.ast) for t in tests)
-                hook_ok = any('hooked is False' in norm(t.ast) or 'not hooked' in norm(t.ast) for t in tests)
+                # the "hooked" local: the element of the scan helper's result that the helper sets True under `.hook`
+                hv = hooked_var(fac, inner)
+                hook_ok = hv is not None and any(('%s is False' % hv) in norm(t.ast) or ('not %s' % hv) in norm(t.ast) for t in tests)
                 ign_ok = any(('.event.ignored is False' in norm(t.ast)) or ('not %s.event.ignored' % recv in norm(t.ast)) for t in tests)
                 run.inst('TRACE.transition-only', inner, 'record only when the step was not a hook', hook_ok,
                          '' if hook_ok else 'the trace record is not conditional on "not hooked": internally handled events get a record (guards: %s)' % txt, node=c, obligation=True)
@@ -123,9 +151,36 @@ def check(run, model, tier):
             loops = [x for x in walk_shallow(hs.node) if isinstance(x, ast.For)]
             ok = len(loops) == 1 and ring_of(loops[0].iter) == 'rtc.tuples'
             run.inst('TRACE.transition-only', hs, 'hook scan iterates this step\'s tuples', ok, 'scan iterates %s' % (norm(loops[0].iter) if loops else None), obligation=True)
-            txt = norm(hs.node, 2000)
-            ok = '.internal is False' in txt and '.recall is False' in txt and '.hook' in txt
-            run.inst('TRACE.transition-only', hs, 'scan skips internal and recall tuples and looks at .hook', ok, 'scan shape changed', obligation=True)
+            # the scan is a pure function of the step's tuples: evaluate it on every sequence of up to 4 tuples over the four kinds
+            # {internal, recall marker, external answered by a hook, external not a hook}: "hooked" must be exactly "some external tuple is a hook"
+            import itertools
+            from sa import pureeval
+            kinds = {'int': dict(internal=True, recall=False, hook=True), 'rec': dict(internal=False, recall=True, hook=False),
+                     'hook': dict(internal=False, recall=False, hook=True), 'ext': dict(internal=False, recall=False, hook=False)}
+            rets_h = [x for x in walk_shallow(hs.node) if isinstance(x, ast.Return) and isinstance(x.value, ast.Tuple)]
+            names_h = [e.id if isinstance(e, ast.Name) else None for e in rets_h[0].value.elts] if len(rets_h) == 1 else []
+            flag = None
+            for x in walk_shallow(hs.node):
+                if isinstance(x, ast.Assign) and isinstance(x.targets[0], ast.Name) and isinstance(x.value, ast.Constant) and x.value.value is True and x.targets[0].id in names_h:
+                    flag = x.targets[0].id
+            if flag is None:
+                raise AnalysisError('append_to_full_trace: the hook-scan helper does not return a flag it sets to True')
+            k = names_h.index(flag)
+            mism = None
+            n_seq = 0
+            for ln in range(0, 5):
+                for seq in itertools.product(sorted(kinds), repeat=ln):
+                    tuples = [pureeval.Obj(signal='S%d' % i, datetime=i, **kinds[kd]) for i, kd in enumerate(seq)]
+                    me = pureeval.Obj(rtc=pureeval.Obj(tuples=tuples))
+                    got = pureeval.call(hs.node, [me])
+                    want = any(kd == 'hook' for kd in seq)
+                    n_seq += 1
+                    if bool(got[k]) != want and mism is None:
+                        mism = (seq, bool(got[k]), want)
+            run.inst('TRACE.transition-only', hs, 'hook scan: hooked == "some external tuple of the step is a hook" on %d tuple sequences' % n_seq, mism is None,
+                     '' if mism is None else ('for the step tuples %s the scan reports hooked=%s, expected %s: an event that an enclosing state handled internally after an inner state '
+                                              'declined it (UNHANDLED + EMPTY re-ask leaves an internal tuple in between) is traced as a transition' % (list(mism[0]), mism[1], mism[2])),
+                     obligation=True)
         else:
             for n, c in apps:
                 rec = resolve_name(c.args[0], defs) if c.args else None
